@@ -40,7 +40,33 @@ FAR = 10 ** 15            # an instant before / after every grid point: a missin
 KIND = {'SimpleContract': 'simple_contract', 'Contract': 'contract', 'MultiCommodityContract': 'multi',
         'Transport': 'transport', 'ExtendedTransport': 'ext_transport'}
 
+M = 'EAO.Properties.C14Builders'
 THEOREMS_C14_BUILDERS = [
+    (M, 'EAO.C14B.split_witness_of_banded',
+     'general theorem: asset problems whose variables each belong to one step (Banded) and whose rows do not reach across a cut (RowsInside), restricted to the step lists of a partition of 0..T-1 '
+     'and assembled per list on the re-based grid, are as a block sum the unsplit problem renamed along the explicit matching splitPerm: the C14 witness is TRUE without a per-instance certificate'),
+    (M, 'EAO.C14B.splitPerm_is_permutation', 'the explicit matching (interval after interval the unsplit variables at the interval steps, in unsplit order) is a permutation of the unsplit variables'),
+    (M, 'EAO.C14B.split_witness_of_banded_skip', 'the witness stays true when the interval problems without variables are dropped (the `continue` of the split set-up)'),
+    (M, 'EAO.C14B.simple_contract_commutes',
+     'SimpleContract: on the asset grid restricted to the steps of an interval (steps re-based, prices picked) the builder returns literally the restriction of what it returns on the whole grid '
+     '(variables, costs, bounds, mapping) - for grid-free parameters and the same data-dependent form (one/two variables per step, sign conditions of the spread) on the interval, or no step in it'),
+    (M, 'EAO.C14B.contract_commutes', 'Contract: the same including the take rows, when no take period reaches across the cut (right-hand sides prorated by the same covered time)'),
+    (M, 'EAO.C14B.multi_commutes', 'MultiCommodityContract: the same (mapping copied per node with the node factor)'),
+    (M, 'EAO.C14B.transport_commutes', 'Transport: the same for positive step lengths (the sign decision of the costs is then the same on every non-empty sub-grid)'),
+    (M, 'EAO.C14B.ext_transport_commutes', 'ExtendedTransport: the same including the take rows at the first node, when no take period reaches across the cut'),
+    (M, 'EAO.C14B.builders_banded', 'whatever one of the five builders returns on a top-level grid is Banded: bounds per variable, every mapping row at a grid step, all rows of a variable at one step, every variable mapped, no boolean, rows non-empty over own variables'),
+    (M, 'EAO.C14B.interval_grid_is_pick',
+     'the interval grid of setup_split_optim_problem (reference restricted to [start_tmp, end_tmp), I re-based, dt / cumulative time / discount factors KEPT) restricted to an asset window '
+     'is the asset grid of the full horizon restricted to the interval steps tmp_I (split_discount: interval costs are the unsplit costs)'),
+    (M, 'EAO.C14B.interval_prices_are_picked', 'the price rows of an interval are the price arrays at the original steps of the interval'),
+    (M, 'EAO.C14B.interval_steps', 'the original steps of an interval are the steps of the reference grid whose point lies in [start_tmp, end_tmp)'),
+    (M, 'EAO.C14B.cuts_partition', 'increasing cuts, the first not after any grid point and the last after every grid point, divide the steps into pieces: every step in exactly one interval (partial last interval, unaligned horizon included)'),
+    (M, 'EAO.C14B.split_witness_builders',
+     'portfolios of SimpleContract / Contract / MultiCommodityContract / Transport / ExtendedTransport: under the decidable hypotheses splitHyps (evaluated by the driver on every case) the split set-up succeeds '
+     'whenever the unsplit one does (with a variable) and its interval problems ARE the unsplit problem: splitWitness = true for the explicit matching, no certificate'),
+    (M, 'EAO.C14B.split_setup_is_restriction', 'under the same hypotheses the interval problems of the split set-up are the unsplit asset problems restricted to the interval steps, assembled on the re-based grid, intervals without variables dropped'),
+    (M, 'EAO.C14B.split_equals_unsplit_builders', 'hence interval-wise optima, concatenated (np.hstack) and transported along the matching, are a feasible and optimal point of the unsplit problem and its value is the sum of the interval optima (LP)'),
+    (M, 'EAO.C14B.split_upper_bounds_builders', 'and the unsplit problem and the block sum of the interval problems have the same upper bounds of their value sets (same optimal value, integrality included, no existence assumed)'),
 ]
 
 
@@ -193,6 +219,21 @@ def run_impl(case):
                       'stop': FAR if obj.end is None else instant(obj.end, tz),
                       'df': [fs(v) for v in g2.discount_factors]})
     out['specs'] = specs
+    # the interval grids, as the loop of setup_split_optim_problem builds them (reference with discount factors)
+    try:
+        ref = scen.make_grid(case['grid'])
+        ref.set_wacc(0.07)
+        out['ref_df'] = grid_json(ref, tz)
+        cuts = _cuts(ref, case['interval'])
+        igs = []
+        for i in range(len(cuts) - 1):
+            tmp = eao.Timegrid(cuts[i], cuts[i + 1], ref.freq, main_time_unit=ref.main_time_unit, ref_timegrid=ref)
+            tmp_I = [int(v) for v in tmp.I]
+            tmp.I = np.array(range(0, tmp.T))
+            igs.append({'a': instant(cuts[i], tz), 'b': instant(cuts[i + 1], tz), 'grid': grid_json(tmp, tz), 'steps': tmp_I})
+        out['interval_grids'] = igs
+    except Exception as e:
+        out['interval_grids_error'] = '%s: %s' % (type(e).__name__, str(e)[:120])
     kw = {'skip_nodes': list(case['skip'])} if case.get('skip') else {}
     try:
         with Quiet():
@@ -310,15 +351,39 @@ def compare(case, impl_result, model_result, req=None):
     return ['[%s] %s' % ('exact' if tol == 0 else 'tol', d) for d in out]
 
 
-def oracle(case, impl_result, model_result, drv):
-    """hypotheses of the theorem decided true by the model => the witness holds on the REAL problems"""
+def compare_grids(impl_result, drv):
+    """the interval grids of the real code against `Grid.interval` / `intervalSteps` (driver op `interval_grid`)"""
+    out = []
+    for k, ig in enumerate(impl_result.get('interval_grids', [])):
+        ans = drv.ask({'op': 'interval_grid', 'grid': impl_result['ref_df'], 'a': ig['a'], 'b': ig['b']})
+        if 'ok' not in ans:
+            out.append('interval grid %d: driver rejected the request: %s' % (k, ans.get('err')))
+            continue
+        mg = ans['ok']
+        for f in ('pts', 'idx', 'dt', 'Dt', 'df'):
+            if mg['grid'][f] != ig['grid'][f]:
+                out.append('interval grid %d: %s %s (model) vs %s (impl)' % (k, f, mg['grid'][f][:6], ig['grid'][f][:6]))
+        if mg['steps'] != ig['steps']:
+            out.append('interval grid %d: tmp_I %s (model) vs %s (impl)' % (k, mg['steps'][:8], ig['steps'][:8]))
+    return out
+
+
+def oracle(case, impl_result, model_result=None, drv=None):
+    """hypotheses of the theorem decided true by the model => the witness holds on the REAL problems
+    (needs the model answer and a driver; without them nothing is claimed)"""
     viol = []
+    if model_result is None or drv is None:
+        return viol
     m = model_result.get('ok', {})
+    if m.get('hyps') and '_op' in impl_result and len(impl_result['_op'].c) > 0 and '_sop' not in impl_result:
+        viol.append({'oracle': 'split_witness_builders', 'detail': 'hypotheses hold and the unsplit set-up succeeds with variables, the split set-up raises: %s' % impl_result['split'].get('text'),
+                     'facts': {'stream': case['stream']}})
     if not m.get('hyps') or '_op' not in impl_result or '_sop' not in impl_result or 'perm' not in m:
         return viol
     req = {'op': 'split_witness', 'problem': problem_json(impl_result['_op']),
            'intervals': [problem_json(o) for o in impl_result['_sop'].ops], 'perm': m['perm']}
     ans = drv.ask(req)
+    impl_result['_witness_checked'] = True
     if 'ok' not in ans or not ans['ok'].get('witness'):
         viol.append({'oracle': 'split_witness_builders', 'detail': 'hypotheses hold, witness on the real problems false: %s' % (ans.get('ok', ans).get('reason') if isinstance(ans.get('ok', ans), dict) else ans),
                      'facts': {'stream': case['stream']}})
@@ -357,7 +422,8 @@ class ScratchDriver:
 def selftest(n, seed, drv, verbose=False, stream=None):
     rnd = random.Random(seed)
     counts = {'cases': 0, 'unsplit_ok': 0, 'split_ok': 0, 'both_error': 0, 'witness_true': 0, 'witness_false': 0,
-              'hyps_true': 0, 'hyps_false': 0, 'harness_errors': 0, 'intervals': 0, 'exact': 0}
+              'hyps_true': 0, 'hyps_false': 0, 'harness_errors': 0, 'intervals': 0, 'interval_grids': 0, 'exact': 0,
+              'hyps_true_witness_real_checked': 0}
     feats, dis, viol = {}, [], []
     for i in range(n):
         case = gen_case(random.Random(rnd.getrandbits(48)), stream=stream)
@@ -365,8 +431,9 @@ def selftest(n, seed, drv, verbose=False, stream=None):
             r = run_impl(case)
             req = request(case, r)
             mres = drv.ask(req)
-            d = compare(case, r, mres, req)
+            d = compare(case, r, mres, req) + compare_grids(r, drv)
             v = oracle(case, r, mres, drv)
+            counts['interval_grids'] += len(r.get('interval_grids', []))
         except Exception as e:
             counts['harness_errors'] += 1
             dis.append({'case': case, 'detail': 'harness error %s' % traceback.format_exc()[-800:]})
@@ -377,6 +444,7 @@ def selftest(n, seed, drv, verbose=False, stream=None):
         counts['both_error'] += int('error' in r['unsplit'] and 'error' in r['split'])
         counts['intervals'] += len(r['split'].get('intervals', []))
         counts['exact'] += int(is_exact(case, req))
+        counts['hyps_true_witness_real_checked'] += int(bool(r.get('_witness_checked')))
         m = mres.get('ok', {})
         if 'witness' in m:
             counts['witness_true' if m['witness'] else 'witness_false'] += 1
